@@ -50,7 +50,7 @@ def run(tier, seed):
         v.sample(s)
     nt = v.counters.get('feat_has_irrelevant_rows', 0)
     if nt == 0 or v.counters.get('feat_has_dose_rows', 0) == 0 or v.counters.get('feat_ids_not_sorted', 0) == 0:
-        raise MachineryError('vacuous run')
+        v.vacuous('vacuous run')
     cov = dict(states=sum(r['states'] for r in out['runs']), transitions=sum(r['transitions'] for r in out['runs']),
                traces_validated_against_impl=v.counters.get('cases', 0) - v.counters.get('outside_preconditions', 0),
                evaluations=v.counters.get('evaluations', 0), distinct_nontrivial=nt, exhaustive=False,
